@@ -603,7 +603,7 @@ func c08free(c *fw.Ctx) {
 	start := make(chan struct{})
 	var overlapping int64
 	var inCommit int32
-	var txnReads, lateTxns int64
+	var txnReads, lateTxns, oldViews int64
 	var txnBad atomic.Value
 	watch := map[string]bool{} // blocks whose transaction cache is read by a watcher during the commits
 	for f := range forks {
@@ -703,6 +703,7 @@ func c08free(c *fw.Ctx) {
 			rr := rand.New(rand.NewSource(seeds[i]))
 			<-start
 			var local []rd
+			views := map[string]*statecache.QueryBlockCache{}
 			for n := 0; n < 40+rr.Intn(60); n++ {
 				b := blocks[all[rr.Intn(len(all))]]
 				k := keys[rr.Intn(len(keys))]
@@ -716,7 +717,15 @@ func c08free(c *fw.Ctx) {
 				var v statecache.Value
 				var ok bool
 				if rr.Intn(4) == 0 {
-					v, ok = statecache.NewQueryBlockCache(sc, b.hash).Get(k)
+					// half of these go through a view this reader opened earlier (maybe before the block was committed)
+					qv := views[b.hash]
+					if qv == nil || rr.Intn(2) == 0 {
+						qv = statecache.NewQueryBlockCache(sc, b.hash)
+						views[b.hash] = qv
+					} else {
+						atomic.AddInt64(&oldViews, 1)
+					}
+					v, ok = qv.Get(k)
 				} else {
 					v, ok = sc.Get(k, b.hash)
 				}
@@ -748,6 +757,7 @@ func c08free(c *fw.Ctx) {
 	}
 	c.Count("free_lookups_through_a_committing_transaction_cache", atomic.LoadInt64(&txnReads))
 	c.Count("free_transactions_committed_during_their_block_commit", atomic.LoadInt64(&lateTxns))
+	c.Count("free_lookups_through_a_view_opened_earlier", atomic.LoadInt64(&oldViews))
 	for _, x := range reads {
 		want, has := truth(x.key, x.blk)
 		c.Count("free_lookups", 1)
